@@ -291,7 +291,8 @@ def _rule_driver(ctx: Ctx, rel: str, qual: str) -> None:
                   f"exit path [{vtxt}] returns {ret} having called {H_CONV} {nc}x and {H_FAIL} {nf}x: a solve that reports "
                   "success must have stored the converged iterate (exactly one convergence hook), one that reports failure "
                   "must have reset the iterate and rewound the clock (exactly one failure hook)",
-                  construct=cons, facts={"verdict": verdict, "n_convergence_hook": nc, "n_failure_hook": nf, "returns": str(ret)})
+                  construct=cons, facts={"verdict": verdict, "n_convergence_hook": nc, "n_failure_hook": nf, "returns": str(ret)},
+                  desc=f"exit path [{cons}] calls exactly the hook that matches the returned value")
         ctx.sample({"rule": "R1", "driver": qual, "path": cons, "ok": ok})
     for node, bad in sorted(conv_without_iter.items()):
         ctx.check("R1", not bad, mod, qual, d.g.stmt[node],
@@ -299,17 +300,20 @@ def _rule_driver(ctx: Ctx, rel: str, qual: str) -> None:
                   "does not contain the computed increment", construct=f"{H_ITER} before {H_CONV}")
     ctx.note(f"R1: {qual}: {nstates} abstract states explored over flags {d.flags}; {len(exits)} distinct exit classes")
     # inside a Newton step: update the iterate, then check convergence, on the same increment
-    for name, f in d.nested.items():
-        eff = d.nested_effect[name]
-        if not (eff["writes"] and eff["iterates"]):
-            continue
+    scopes = [(f"{qual}.{name}", f) for name, f in d.nested.items()
+              if d.nested_effect[name]["writes"] and d.nested_effect[name]["iterates"]]
+    in_loop = [c for w in walk_local(fn) if isinstance(w, (ast.While, ast.For)) for b in w.body for c in walk_local(b)
+               if isinstance(c, ast.Call) and call_name(c) == "check_convergence"]
+    if in_loop:
+        scopes.append((qual, fn))
+    for sq, f in scopes:
         gg = cfgmod.build(f)
         its = _call_nodes(gg, lambda c: _hook_call(c, H_ITER))
         chk = _call_nodes(gg, lambda c: call_name(c) == "check_convergence")
         for cn, cc in chk:
             ok = any(gg.dominates(n, cn) and n != cn for n, _ in its)
             same = all(bool(ic.args) and bool(cc.args) and u(ic.args[0]) == u(cc.args[0]) for _, ic in its)
-            ctx.check("R1", ok and same, mod, f"{qual}.{name}", cc,
+            ctx.check("R1", ok and same, mod, sq, cc,
                       f"within one iteration {H_ITER}(increment) must precede check_convergence(increment, ...) (the residual "
                       "and the stored iterate refer to the updated state)", construct=f"{H_ITER} dominates check_convergence",
                       facts={"increment_args": [u(ic.args[0]) if ic.args else None for _, ic in its] + [u(cc.args[0]) if cc.args else None]})
@@ -519,10 +523,54 @@ def _rule_overrides(ctx: Ctx, sig: _Sig) -> None:
                           f"satisfies the hook's own obligations ({'; '.join(failed) if failed else 'no super call on all paths'}): "
                           "the base bookkeeping (shift / store / reset / rewind) is lost for models using this class",
                           construct=f"override {q}: {how}",
-                          facts={"super_calls": len(sup), "forwarding_super_on_all_paths": ok_super, "failed_clauses": failed})
+                          facts={"super_calls": len(sup), "forwarding_super_on_all_paths": ok_super, "failed_clauses": failed},
+                          desc=f"override of {h} keeps the base bookkeeping ({how})")
                 ctx.sample({"rule": "R3", "override": f"{rel}:{q}", "accepted_as": how})
     if n == 0:
         raise AnchorError("no hook override found under src/porepy")
+
+
+# ------------------------------------------------------------------ thorough: notes on repeated-attempt hazards
+
+def _note_progress_on_every_attempt(ctx: Ctx) -> None:
+    """before_nonlinear_loop runs on *every* attempt of a time step (also after a failure).  Functions reachable
+    from it (name-based call graph over `self.X()` calls, depth <= 4) that shift a time-step history therefore shift
+    it once per attempt, not once per accepted step.  Reported as notes (not part of the claimed rules)."""
+    sol = ctx.repo.module(SOLSTRAT)
+    index: dict[str, list] = {}
+
+    def defs(name: str) -> list:
+        if name not in index:
+            out = []
+            tok = f"def {name}("
+            for rel in ctx.repo.all_py(PKG):
+                if tok in ctx.repo.read(rel):  # performance pre-filter only
+                    mod = ctx.repo.module(rel)
+                    out += [(rel, q, f) for q, f in mod.functions() if q.split(".")[-1] == name and "Protocol" not in q]
+            index[name] = out
+        return index[name]
+
+    seen: set[tuple[str, str]] = set()
+    frontier = [(SOLSTRAT, f"SolutionStrategy.{H_LOOP}", sol.func(f"SolutionStrategy.{H_LOOP}"), [H_LOOP])]
+    for _ in range(4):
+        nxt = []
+        for rel, q, f, path in frontier:
+            for c in walk_local(f):
+                if not isinstance(c, ast.Call):
+                    continue
+                nm = call_name(c)
+                shifts_time = nm in ("shift_time_step_values", "progress_values_in_time") or (
+                    nm == "shift_solution_values" and any("TIME_STEP_SOLUTIONS" in u(a) for a in list(c.args) + [k.value for k in c.keywords]))
+                if shifts_time:
+                    ctx.note(f"time-step history shifted on every solve attempt (reached from {' -> '.join(path)}): "
+                             f"{rel}:{q}: {u(c)[:70]} - after a failed step the values of the discarded attempt become "
+                             "the 'previous time step' values")
+                if isinstance(c.func, ast.Attribute) and isinstance(c.func.value, (ast.Name, ast.Call)) and u(c.func.value) in ("self", "super()"):
+                    for d in defs(nm):
+                        if (d[0], d[1]) not in seen:
+                            seen.add((d[0], d[1]))
+                            nxt.append((d[0], d[1], d[2], path + [nm]))
+        frontier = nxt
 
 
 # ------------------------------------------------------------------ entry point
@@ -533,6 +581,8 @@ def run(ctx: Ctx) -> None:
     _rule_driver(ctx, LINEAR, "LinearSolver.solve")
     _rule_hook_bodies(ctx, sig)
     _rule_overrides(ctx, sig)
+    if ctx.tier == "thorough":
+        _note_progress_on_every_attempt(ctx)
 
 
 def _m(name, file, old, new, rule, control=False, count=1):
@@ -553,6 +603,9 @@ MUTANTS = [
     _m("convergence-checked-before-iterate-update", NEWTON,
        "            model.after_nonlinear_iteration(nonlinear_increment)\n\n            if (\n",
        "            if (\n", "R1"),
+    _m("failure-hook-called-twice-on-divergence", NEWTON,
+       "                    # Handle nonlinear divergence outside the loop.\n                    break\n",
+       "                    model.after_nonlinear_failure()\n                    break\n", "R1"),
     _m("linear-solver-no-failure-hook", LINEAR, "        else:\n            model.after_nonlinear_failure()\n        return is_converged",
        "        return is_converged", "R1"),
     _m("linear-solver-stores-without-increment", LINEAR, "            model.after_nonlinear_iteration(nonlinear_increment)\n            model.after_nonlinear_convergence()\n",
@@ -581,7 +634,7 @@ MUTANTS = [
        "                iterations=self.nonlinear_solver_statistics.num_iteration\n            )\n            self.update_solution(solution)\n", "R2"),
     _m("update-solution-stores-additively", SOLSTRAT, "            values=solution, time_step_index=0, additive=False\n",
        "            values=solution, time_step_index=0, additive=True\n", "R2"),
-    _m("override-forgets-super", CF, "        super().after_nonlinear_convergence()  # type:ignore[safe-super]\n", "        pass\n", "R3", control=True),
+    _m("override-forgets-super", CF, "        super().after_nonlinear_convergence()  # type:ignore[safe-super]\n", "        pass\n", "R3"),
     _m("override-super-only-on-a-branch", CF, "        super().after_nonlinear_convergence()  # type:ignore[safe-super]\n",
        "        if self.fluid.num_phases > 1:\n            super().after_nonlinear_convergence()\n", "R3"),
     _m("reimplementation-writes-between-shifts", FD,
@@ -591,5 +644,5 @@ MUTANTS = [
        "        self.equation_system.set_variable_values(\n            values=solution, time_step_index=0, additive=False\n        )\n"
        "        # Then proceed as usual with the other variables.\n        self.equation_system.shift_time_step_values(\n"
        "            max_index=len(self.time_step_indices), variables=other_vars\n        )\n", "R3"),
-    _m("loop-hook-override-forgets-super", FD, "        super().before_nonlinear_loop()\n        fractures", "        fractures", "R3"),
+    _m("loop-hook-override-forgets-super", FD, "        super().before_nonlinear_loop()\n        fractures", "        fractures", "R3", control=True),
 ]
